@@ -63,6 +63,9 @@ void clr_cb(void *ptr, void *priv)
     g_obs_pos.push_back(g_events->size());
 }
 
+// shared pointers take no priv: what their clear callback receives there is not documented, so it is not compared
+void clr_cb_sh(void *ptr, void *) { clr_cb(ptr, nullptr); }
+
 void begin_op()
 {
     g_pred.clear();
@@ -135,7 +138,7 @@ void compare_events(const char *what)
     auto norm = [](const Ev &e) {
         Ev n = e;
         if (n.kind == 'm' || n.kind == 'x') { n.p = nullptr; if (n.sz < 1000) n.sz = 1; }   // bookkeeping: any size below 1000
-        else n.sz = 0;
+        else if (n.kind != 'c') n.sz = 0;        // a clear callback event carries the priv argument it received
         return n;
     };
     auto key = [](const Ev &a, const Ev &b) { return a.kind != b.kind ? a.kind < b.kind : a.p != b.p ? a.p < b.p : a.sz < b.sz; };
@@ -197,7 +200,7 @@ void apply(int op, uint8_t a, uint8_t b, int ns, int nw, int nu)
         if (occupied) pred_drop_owner(sh[i], i);
         sh[i] = -1;
         size_t pre = g_pred.size();
-        LIB(cstl_shared_ptr_alloc(&SP[i], sz, clr ? clr_cb : nullptr));
+        LIB(cstl_shared_ptr_alloc(&SP[i], sz, clr ? clr_cb_sh : nullptr));
         // what the allocator did decides the outcome (faults / limit): read it from the log
         std::vector<Ev> o = observed();
         // the bookkeeping block is the request below 1000 bytes, the managed block the one of sz bytes (any order)
@@ -289,6 +292,20 @@ void apply(int op, uint8_t a, uint8_t b, int ns, int nw, int nu)
         bool occupied = sh[s] >= 0;
         size_t d0 = 0, d1 = 0;
         for (auto &al : A) d0 += al.destroyed;
+        if (occupied && sh[s] == wk[w] && A[sh[s]].owners.size() == 1) {
+            // the destination is the only owner of the very allocation the weak pointer refers to. Whether the
+            // destination lets go before or after the lock attempt is not documented (weak_from and alloc say
+            // "reset prior", lock does not): either the memory is destroyed and the owner ends up empty, or
+            // nothing at all changes. The outcome decides which of the two predictions applies.
+            CNT("class.lock.into_sole_owner");
+            LIB(cstl_weak_ptr_lock(&WP[w], &SP[s]));
+            void *g;
+            LIB(g = cstl_shared_ptr_get(&SP[s]));
+            TRACE("W%d lock -> S%d [dst is the sole owner of the same memory]: %s", w, s, g ? "still owner" : "destroyed, empty");
+            if (!g) { pred_drop_owner(sh[s], s); sh[s] = -1; cx.lock_expired = true; }
+            compare_events("weak_lock");
+            break;
+        }
         if (occupied) pred_drop_owner(sh[s], s);
         sh[s] = -1;
         bool live = wk[w] >= 0 && !A[wk[w]].owners.empty();
